@@ -1,7 +1,7 @@
 (* C02/Properties.v — property theorems (Repaired model; Head = /repo HEAD) and refutation witnesses (Defective =
    the tree before any fix).
    Each theorem is closed by [exact] of a lemma from Proofs.v (or vm_compute for concrete witnesses). *)
-From OV Require Import Common.Base C02.Model C02.Proofs C02.HeadSafe.
+From OV Require Import Common.Base C02.Model C02.Proofs C02.HeadSafe C02.Told.
 Open Scope N_scope.
 
 (* Release frees only the releasing session's own leases: every release path of the model — Release by pool
@@ -75,7 +75,7 @@ Print Assumptions C02_one_owner.
    alphabet (PA PI PT ID IQ IS IV IR IL IT IA and Restart, any arguments, any candidate choice; Restart = the
    process dies, registry/provider tables/sessions are lost and restoreSessions rebuilds them from the persisted
    images), for every session:
-   what it holds (PPPoE: recorded IPv4/IPv6/PD; IPoE: last OFFER/ACK yiaddr, advertised IA_NA/PD) is owned by that
+   what it holds (PPPoE: recorded IPv4/IPv6/PD; IPoE: last OFFER/ACK yiaddr, IA_NA/PD bound by the last REPLY - ADVERTISEd but not yet REPLYed values are not part of [holds]) is owned by that
    session in the registry (leased to it in a pool containing it, or recorded for it in its VRF's static ledger);
    for PPPoE the recorded IPv4 address is the IPCP-told one (or none), and the told one is owned while live. *)
 Theorem C02_told_is_recorded :
@@ -227,6 +227,34 @@ Theorem C02_ipoe_recorded_is_told :
     s_b4 s = None \/ (s_b4 s = s_told s /\ s_a4 s = s_b4 s).
 Proof. exact ipoe_recorded_is_told. Qed.
 Print Assumptions C02_ipoe_recorded_is_told.
+
+(* ... and the direction the clause (and the fixed defect d6) is about: told => recorded.  Whatever address an IPoE
+   subscriber is SENT - OFFER or ACK yiaddr, DHCPv6 REPLY IA_NA / IA_PD - is, right after that step, the session's
+   told / bound value and owned by the session in the registry of its VRF; an ACK is recorded as sess.IPv4.  (The op
+   is the one the code at HEAD performs: every ACK goes through handleAck, bind = isreq.)  A model with d6 - an ACK
+   that leaves s_b4 empty - falsifies the third conjunct. *)
+Theorem C02_ipoe_v4_told_is_recorded :
+  forall ps ss, NoDup (map pool_id ps) -> Forall pool_wf ps -> kinds_ok (mkReg ps []) -> resettable (mkReg ps []) ->
+  NoDup (map s_id ss) -> Forall fresh_sess ss ->
+  forall st isreq rq sid vrf s4 o4 st' x c,
+  reach Repaired (init_state ps ss) st ->
+  In (st', OId isreq (IdTold x) c) (step Repaired st (ID isreq isreq rq sid vrf s4 o4)) ->
+  exists s', find_sess sid st' = Some s' /\ s_told s' = Some x /\ (isreq = true -> s_b4 s' = Some x) /\
+             owns (st_reg st') F4 (s_vrf s') (x, 0) sid.
+Proof. exact ipoe_v4_told_is_recorded. Qed.
+Print Assumptions C02_ipoe_v4_told_is_recorded.
+
+Theorem C02_ipoe_v6_reply_is_recorded :
+  forall ps ss, NoDup (map pool_id ps) -> Forall pool_wf ps -> kinds_ok (mkReg ps []) -> resettable (mkReg ps []) ->
+  NoDup (map s_id ss) -> Forall fresh_sess ss ->
+  forall st sid vrf s6 spd o6 od st' a6 ad e c6 cd,
+  reach Repaired (init_state ps ss) st ->
+  In (st', OIs true (Some (a6, ad)) e c6 cd) (step Repaired st (IS true sid vrf s6 spd o6 od)) ->
+  exists s', find_sess sid st' = Some s' /\ s_b6 s' = a6 /\ s_bd s' = ad /\
+             (forall a, a6 = Some a -> owns (st_reg st') F6 (s_vrf s') (a, 0) sid) /\
+             (forall x, ad = Some x -> owns (st_reg st') FD (s_vrf s') x sid).
+Proof. exact ipoe_v6_reply_is_recorded. Qed.
+Print Assumptions C02_ipoe_v6_reply_is_recorded.
 
 (* ------------------------------------------------------------------ the code at /repo HEAD *)
 (* [Head] = the variant /repo HEAD implements (fixed: constant fall-back 24c9504, expiry take-over 58e16d0,
